@@ -416,6 +416,91 @@ impl HasInlineComments for Expression { #[verifier::external_body] fn has_inline
             Hole("shape.take_first_line(&strip_trailing_trivia(&formatted_returns));", "shape.take_first_line(&formatted_returns);", why="strip_trailing_trivia only affects the measured width"),
             Hole("let formatted_returns = format_punctuated(ctx, returns, shape, format_expression);", "let formatted_returns = format_expressions_single(ctx, returns, shape);", kind="wrapper", why="generic list formatter with format_expression: verified wrapper"),
         ]),
+        # ---- the statement-level wrappers (trivia around the statement) and the last statement ----
+        Raw("""
+// update_trivia on an assignment / a local assignment / a return changes the trivia of its first and last token only (class C here; the
+// implementation for Assignment is verified in unit trivia: the variables' first item and the expressions' last item are updated, nothing else)
+impl UpdateTrivia for Assignment {
+    open spec fn same_sem_u(&self, r: &Self) -> bool { var_sig(n_asg_variables(r)) == var_sig(n_asg_variables(self)) && expr_sig(n_asg_expressions(r)) == expr_sig(n_asg_expressions(self)) }
+    open spec fn trivia_ok(&self, l: FormatTriviaType, t: FormatTriviaType, r: &Self) -> bool { true }
+    #[verifier::external_body] fn update_trivia(&self, leading_trivia: FormatTriviaType, trailing_trivia: FormatTriviaType) -> (r: Self) { unimplemented!() }
+}
+impl UpdateTrivia for LocalAssignment {
+    open spec fn same_sem_u(&self, r: &Self) -> bool { name_sig(n_lasg_names(r)) == name_sig(n_lasg_names(self)) && expr_sig(n_lasg_expressions(r)) == expr_sig(n_lasg_expressions(self))
+        && (n_lasg_equal_token(r) is Some) == (n_lasg_equal_token(self) is Some) }
+    open spec fn trivia_ok(&self, l: FormatTriviaType, t: FormatTriviaType, r: &Self) -> bool { true }
+    #[verifier::external_body] fn update_trivia(&self, leading_trivia: FormatTriviaType, trailing_trivia: FormatTriviaType) -> (r: Self) { unimplemented!() }
+}
+""", module="formatters::assignment"),
+        Fn(ASG, "format_assignment", contract="""
+    requires exprs_wf(n_asg_expressions(assignment)), ppairs(n_asg_expressions(assignment)).len() >= 1,
+    ensures var_sig(n_asg_variables(&r)) == var_sig(n_asg_variables(assignment)), //# C02.assignment_same
+            expr_sig(n_asg_expressions(&r)) == expr_sig(n_asg_expressions(assignment)), //# C02.assignment_same
+"""),
+        Fn(ASG, "format_local_assignment", contract="""
+    requires exprs_wf(n_lasg_expressions(assignment)),
+             ppairs(n_lasg_expressions(assignment)).len() > 0 ==> n_lasg_equal_token(assignment) is Some,
+    ensures name_sig(n_lasg_names(&r)) == name_sig(n_lasg_names(assignment)), //# C02.local_assignment_same
+            expr_sig(n_lasg_expressions(&r)) == expr_sig(n_lasg_expressions(assignment)), //# C02.local_assignment_same
+            (n_lasg_equal_token(&r) is Some) == (ppairs(n_lasg_expressions(assignment)).len() > 0), //# C02.local_assignment_same
+"""),
+        Raw("""
+pub assume_specification [TokenReference::new] (l: Vec<Token>, t: Token, tr: Vec<Token>) -> (r: TokenReference);
+#[verifier::external_body] pub fn identifier_token(s: &str) -> (r: Token) { unimplemented!() /* Token::new(TokenType::Identifier { identifier: s.into() }) */ }
+// what a last statement is, trivia aside: its kind, and for a return its values
+pub open spec fn last_same(a: LastStmt, b: LastStmt) -> bool {
+    match (a, b) {
+        (LastStmt::Break(_), LastStmt::Break(_)) => true,
+        #[cfg(feature = "luau")] (LastStmt::Continue(_), LastStmt::Continue(_)) => true,
+        (LastStmt::Return(x), LastStmt::Return(y)) => ppairs(n_ret_returns(&y)).len() == ppairs(n_ret_returns(&x)).len() && expr_sig(n_ret_returns(&y)) == expr_sig(n_ret_returns(&x)),
+        _ => false,
+    }
+}
+pub open spec fn last_wf(a: LastStmt) -> bool { match a { LastStmt::Return(x) => exprs_wf(n_ret_returns(&x)), _ => true } }
+""", module="formatters::block"),
+        Fn("src/formatters/block.rs", "format_last_stmt_no_trivia", contract="""
+    requires last_wf(*last_stmt),
+    ensures last_same(*last_stmt, r), //# C02.last_stmt_same
+""", edits=[
+            Between("Token::new(TokenType::Identifier {", "}),", "identifier_token(\"continue\"),", kind="wrapper", why="`\"continue\".into()` (Into<ShortString>): the identifier token `continue`"),
+        ]),
+        # ---- goto / label (Lua 5.2), attributes (Lua 5.4), compound assignments (Luau) ----
+        Raw(node_specs("full_moon::ast::lua52::Goto", "n_goto", [("goto_token", "TokenReference", "-"), ("label_name", "TokenReference", "ref")], cfg='''#[cfg(feature = "lua52")] ''')
+            + node_specs("full_moon::ast::lua52::Label", "n_label", [("left_colons", "TokenReference", "-"), ("name", "TokenReference", "ref"), ("right_colons", "TokenReference", "-")], cfg='''#[cfg(feature = "lua52")] ''') + """
+#[cfg(feature = "lua52")] pub assume_specification [full_moon::ast::lua52::Goto::new] (label_name: TokenReference) -> (r: full_moon::ast::lua52::Goto) ensures n_goto_label_name(&r) == label_name;
+#[cfg(feature = "lua52")] pub assume_specification [full_moon::ast::lua52::Label::new] (name: TokenReference) -> (r: full_moon::ast::lua52::Label) ensures n_label_name(&r) == name;
+""", module="formatters::lua52"),
+        Fn("src/formatters/lua52.rs", "format_goto", attrs='''#[cfg(feature = "lua52")]\n''', contract="ensures tok_of(n_goto_label_name(&r)) == tok_of(n_goto_label_name(goto)), //# C02.goto_label_same"),
+        Fn("src/formatters/lua52.rs", "format_goto_no_trivia", attrs='''#[cfg(feature = "lua52")]\n''', contract="ensures tok_of(n_goto_label_name(&r)) == tok_of(n_goto_label_name(goto)), //# C02.goto_label_same"),
+        Fn("src/formatters/lua52.rs", "format_label", attrs='''#[cfg(feature = "lua52")]\n''', contract="ensures tok_of(n_label_name(&r)) == tok_of(n_label_name(label)), //# C02.goto_label_same"),
+        Raw(node_specs("full_moon::ast::lua54::Attribute", "n_attr", [("brackets", "ContainedSpan", "-"), ("name", "TokenReference", "ref")], cfg='''#[cfg(feature = "lua54")] ''') + """
+#[cfg(feature = "lua54")] pub assume_specification [full_moon::ast::lua54::Attribute::new] (name: TokenReference) -> (r: full_moon::ast::lua54::Attribute) ensures n_attr_name(&r) == name;
+""", module="formatters::lua54"),
+        Fn(GEN, "format_contained_span", mode="stub"),
+        Fn("src/formatters/lua54.rs", "format_attribute", attrs='''#[cfg(feature = "lua54")]\n''', contract="ensures tok_of(n_attr_name(&r)) == tok_of(n_attr_name(attribute)), //# C02.attribute_same"),
+        Raw("""
+#[cfg(feature = "luau")] #[verifier::external_type_specification] pub struct ExCompoundOp(CompoundOp);
+#[cfg(feature = "luau")] pub open spec fn cop_id(op: CompoundOp) -> int {
+    match op { CompoundOp::PlusEqual(_) => 1, CompoundOp::MinusEqual(_) => 2, CompoundOp::StarEqual(_) => 3, CompoundOp::SlashEqual(_) => 4, CompoundOp::DoubleSlashEqual(_) => 5,
+               CompoundOp::PercentEqual(_) => 6, CompoundOp::CaretEqual(_) => 7, CompoundOp::TwoDotsEqual(_) => 8, _ => 0 }
+}
+#[cfg(feature = "luau")] pub uninterp spec fn n_ca_lhs(n: &CompoundAssignment) -> Var;
+#[cfg(feature = "luau")] pub uninterp spec fn n_ca_op(n: &CompoundAssignment) -> CompoundOp;
+#[cfg(feature = "luau")] pub uninterp spec fn n_ca_rhs(n: &CompoundAssignment) -> Expression;
+#[cfg(feature = "luau")] pub assume_specification [CompoundAssignment::lhs] (n: &CompoundAssignment) -> (r: &Var) ensures *r == n_ca_lhs(n);
+#[cfg(feature = "luau")] pub assume_specification [CompoundAssignment::compound_operator] (n: &CompoundAssignment) -> (r: &CompoundOp) ensures *r == n_ca_op(n);
+#[cfg(feature = "luau")] pub assume_specification [CompoundAssignment::rhs] (n: &CompoundAssignment) -> (r: &Expression) ensures *r == n_ca_rhs(n);
+#[cfg(feature = "luau")] pub assume_specification [CompoundAssignment::new] (lhs: Var, op: CompoundOp, rhs: Expression) -> (r: CompoundAssignment) ensures n_ca_lhs(&r) == lhs, n_ca_op(&r) == op, n_ca_rhs(&r) == rhs;
+""", module="formatters::luau"),
+        Fn("src/formatters/luau.rs", "format_compound_op", attrs='''#[cfg(feature = "luau")]\n''', contract="ensures cop_id(r) == cop_id(*compound_op), //# C02.compound_assignment_same"),
+        Fn("src/formatters/luau.rs", "format_compound_assignment", attrs='''#[cfg(feature = "luau")]\n''', contract="""
+    requires wf(skel(n_ca_rhs(compound_assignment))),
+    ensures var_id(n_ca_lhs(&r)) == var_id(n_ca_lhs(compound_assignment)), //# C02.compound_assignment_same
+            cop_id(n_ca_op(&r)) == cop_id(n_ca_op(compound_assignment)), //# C02.compound_assignment_same
+            erase(skel(n_ca_rhs(&r))) == erase(skel(n_ca_rhs(compound_assignment))), //# C02.compound_assignment_same
+""", edits=[
+            Hole("(strip_leading_trivia(&lhs).to_string().len() + compound_operator.to_string().len());", "hole_usize();", why="Display widths of the variable and the operator"),
+        ]),
     ]
     return its
 
@@ -423,9 +508,13 @@ LABELS = {
     "C02.local_assignment_same": dict(props=["C02"], text="format_local_assignment_no_trivia / format_local_no_assignment: the same names and the same values, in order; an `=` exactly when there are values"),
     "C02.return_values_same": dict(props=["C02"], text="format_return: whichever layout wins, as many values as the input, value i the input's value i modulo redundant parentheses"),
     "C02.return_rehang_loop": dict(props=["C02"], text="format_return, one value per line: every value pushed so far — kept as formatted, hung again from the original expression, or given the comments that stood behind `return` — is the input's value in the same place"),
+    "C02.goto_label_same": dict(props=["C02"], text="format_goto / format_goto_no_trivia / format_label return a node with the same label name"),
+    "C02.attribute_same": dict(props=["C02"], text="format_attribute returns an attribute with the same name"),
+    "C02.compound_assignment_same": dict(props=["C02"], text="format_compound_op maps every compound operator to itself; format_compound_assignment returns the same variable, the same operator and the same value (modulo redundant parentheses)"),
+    "C02.last_stmt_same": dict(props=["C02"], text="format_last_stmt_no_trivia returns the same kind of last statement (break stays break, continue stays continue), a return with the same values"),
     "C02.assignment_same": dict(props=["C02"], text="format_assignment_no_trivia: the same variables and the same values, in order, whichever layout is chosen"),
     "C02.assignment_values_same": dict(props=["C02"], text="attempt_assignment_tactics: whichever layout tactic wins, the list has as many values as the input, value i is the input's value i modulo redundant parentheses, and the `=` token is the `=`"),
     "C02.assignment_rehang_loop": dict(props=["C02"], text="attempt_assignment_tactics, one value per line: every value pushed so far — kept as formatted, or hung again from the original expression — is the input's value in the same place"),
 }
 
-UNIT = Unit("assign", items() + [VERIF_MOD], LABELS, macros=[(GEN, "fmt_symbol")], header=HEADER + "use full_moon::ast::punctuated::Pair;\n")
+UNIT = Unit("assign", items() + [VERIF_MOD], LABELS, macros=[(GEN, "fmt_symbol"), (EX, "fmt_op")], header=HEADER + "use full_moon::ast::punctuated::Pair;\n#[cfg(feature = \"lua54\")] use full_moon::ast::lua54::Attribute;\n#[cfg(feature = \"luau\")] use full_moon::ast::luau::CompoundOp;\n")
